@@ -287,8 +287,8 @@ func (c *Ctx) zeroInitStruct(st *State, ref Term, t types.Type, depth int) {
 		return
 	}
 	named, _ := owner.(*types.Named)
-	if named != nil && named.Obj().Pkg() != nil && !c.V.isRepoPkg(named.Obj().Pkg().Path()) {
-		return // external struct: opaque
+	if depth == 0 && named != nil && named.Obj().Pkg() != nil && !c.V.isRepoPkg(named.Obj().Pkg().Path()) {
+		return // external struct allocated on its own: opaque (a nested one is part of a repository object: zeroed)
 	}
 	for i := 0; i < s.NumFields(); i++ {
 		fi := c.fieldByIndex(owner, i)
@@ -559,6 +559,35 @@ func (c *Ctx) step(st *State, fr *Frame, in ssa.Instruction) {
 		}
 		cl.Ref = c.allocRef(st, "closure")
 		c.V.closureOf[cl.Ref.S] = cl
+		// what a contract can say about a function value: which function literal it is and what it captured
+		// (closure(x, "KEY"), bound(x, i) in the contract language); only reference-like captures are recorded
+		c.declare("(declare-fun closfn (Int) Int)")
+		c.declare("(declare-fun closbind (Int Int) Int)")
+		st.assume(mk(SBool, "(= (closfn %s) %d)", cl.Ref.S, c.V.typeID("fn:"+c.V.fnKey(cl.Fn))))
+		for i, b := range cl.Bind {
+			switch bv := b.(type) {
+			case Term:
+				if bv.Sort == SInt {
+					st.assume(mk(SBool, "(= (closbind %s %d) %s)", cl.Ref.S, i, bv.S))
+				}
+			case *Addr:
+				// a captured variable (NaiveForm captures the variable, not its value): what it holds when the function
+				// value is made - the address it denotes when the engine tracks a place, else a reference
+				if bv.Kind != aCell {
+					break
+				}
+				switch cv := c.loadCell(st, bv).(type) {
+				case Term:
+					if cv.Sort == SInt {
+						st.assume(mk(SBool, "(= (closbind %s %d) %s)", cl.Ref.S, i, cv.S))
+					}
+				case *Addr:
+					if cv.Kind == aField || cv.Kind == aCell {
+						st.assume(mk(SBool, "(= (closbind %s %d) %s)", cl.Ref.S, i, c.addrIdentity(cv).S))
+					}
+				}
+			}
+		}
 		st.regs[x] = cl
 	case *ssa.MapUpdate:
 		c.mapUpdate(st, fr, x)
